@@ -43,6 +43,7 @@ class StageOutcome:
         self.failure = None      # (case_path, why, driver, extra_args)
         self.notes = []
         self.wall = 0.0
+        self.campaign = None     # exact command of the shard that produced the failure (for campaign replays)
 
 
 def env_for(extra=None):
@@ -152,6 +153,8 @@ def stage_pbt(pid, stage, tier):
                 out.stats.append(st)
             if not out.failure:
                 out.failure = (found[0], found[1], stage, log)
+                out.campaign = {"driver": stage["driver"], "args": [a for a in jobs[k][0][1:]],
+                                "rc_params": jobs[k][1].get("RC_PARAMS", "")}
             continue
         if rc == 2 and "GENERATOR-ERROR" in read_tail(log):
             sys.stderr.write(read_tail(log))
@@ -230,6 +233,10 @@ def register_stage(kind, fn):
 # ---------------------------------------------------------------------------------------------------
 def replay_once(pid, path, timeout=900):
     """Returns True if the saved case still fails."""
+    if path.endswith(".campaign"):
+        with open(path) as f:
+            lines = [l for l in f.read().splitlines() if l and not l.startswith("#")]
+        return _campaign_run(pid, json.loads(lines[0]))
     driver, stage = driver_for_replay(pid, path)
     if stage["kind"] == "pbt":
         binary = vfbuild.build_driver(stage["driver"], stage.get("variant", "asan"), stage["src"])
@@ -242,6 +249,71 @@ def replay_once(pid, path, timeout=900):
         return rc != 0
     impl = STAGE_IMPL[stage["kind"]]
     return impl(pid, stage, "replay", path)
+
+
+def _campaign_run(pid, camp, timeout=3600):
+    """Re-runs a campaign (one shard with its exact arguments and RC_PARAMS); returns True if it fails again."""
+    if camp.get("fuzz"):
+        stage = None
+        for st in PROPS[pid]["stages"]:
+            if st.get("driver") == camp["driver"] and st["kind"] == "fuzz":
+                stage = st
+        if stage is None:
+            return False
+        binary = _fuzz_binary(stage)
+        wd = os.path.join(BUILD, "work", pid, "campaign")
+        shutil.rmtree(wd, ignore_errors=True)
+        cdir, adir = os.path.join(wd, "corpus"), os.path.join(wd, "art") + "/"
+        os.makedirs(cdir)
+        os.makedirs(adir)
+        src = os.path.join(VERIF, "corpus", stage["driver"])
+        if camp.get("seeded") and os.path.isdir(src):
+            for f in os.listdir(src):
+                shutil.copyfile(os.path.join(src, f), os.path.join(cdir, f))
+        env = env_for({"ASAN_OPTIONS": ASAN_ENV["ASAN_OPTIONS"].replace("detect_leaks=1", "detect_leaks=0")})
+        run_proc([binary, cdir] + list(camp["args"]) + ["-artifact_prefix=" + adir], env, timeout, os.path.join(wd, "log.txt"))
+        return any(a.startswith("crash-") for a in os.listdir(adir))
+    stage = None
+    for st in PROPS[pid]["stages"]:
+        if st.get("driver") == camp["driver"] and st["kind"] == "pbt":
+            stage = st
+            break
+    if stage is None:
+        return False
+    binary = vfbuild.build_driver(stage["driver"], stage.get("variant", "asan"), stage["src"])
+    wd = os.path.join(BUILD, "work", pid, "campaign")
+    shutil.rmtree(wd, ignore_errors=True)
+    os.makedirs(os.path.join(wd, "fails"))
+    args = []
+    skip = False
+    for a in camp["args"]:
+        if skip:
+            skip = False
+            continue
+        if a in ("--stats", "--faildir", "--dump-dir"):
+            skip = True
+            continue
+        args.append(a)
+    cmd = list(stage.get("wrapper", [])) + [binary] + args + ["--stats", os.path.join(wd, "stats.json"), "--faildir", os.path.join(wd, "fails")]
+    env = env_for({"RC_PARAMS": camp.get("rc_params", "")})
+    env.update(stage.get("env", {}))
+    log = os.path.join(wd, "log.txt")
+    rc, _ = run_proc(cmd, env, timeout, log)
+    return rc == 1 and fail_from_log(log) is not None
+
+
+def campaign_confirm(pid, camp):
+    return all(_campaign_run(pid, camp) for _ in range(2))
+
+
+def write_campaign_file(pid, camp, case_path, why):
+    os.makedirs(os.path.join(FAILURES, pid), exist_ok=True)
+    dst = os.path.join(FAILURES, pid, "%s-campaign-%d.campaign" % (pid, abs(hash(json.dumps(camp, sort_keys=True))) % 100000000))
+    with open(dst, "w") as f:
+        f.write("# campaign replay: re-runs one shard with the same binary, seed and case order (./check %s --replay <this file>)\n" % pid)
+        f.write("# first failing case of the campaign (passes when run alone): %s\n" % case_path)
+        f.write(json.dumps(camp) + "\n")
+    return dst
 
 
 def driver_for_replay(pid, path):
@@ -377,6 +449,7 @@ def run_check(pid, tier):
     vfbuild.build_lib("asan")
     outcomes = []
     failure = None
+    failed_outcome = None
     known, _fixed = known_findings(pid)
     for line in known:
         print("KNOWN-FINDING: %s" % line)
@@ -395,6 +468,7 @@ def run_check(pid, tier):
             sys.stdout.flush()
             if o.failure:
                 failure = o.failure
+                failed_outcome = o
                 break
 
     violations = 0
@@ -408,6 +482,14 @@ def run_check(pid, tier):
                 if replay_once(pid, path):
                     confirmed += 1
             if confirmed == 3:
+                violations = 1
+            elif failed_outcome is not None and getattr(failed_outcome, "campaign", None) and campaign_confirm(pid, failed_outcome.campaign):
+                # The single case passes in isolation but the same campaign (same binary, same seed, same case order in one
+                # process) fails again every time: the failure depends on state that survives between independent cases, i.e.
+                # on hidden global / static state inside the library.  The replay file is the campaign itself.
+                path = write_campaign_file(pid, failed_outcome.campaign, path, failure[1])
+                failure = (path, failure[1] + " | fails only after the earlier cases of the same campaign ran in the same process: "
+                           "state survives between independent uses of the library", failure[2], failure[3])
                 violations = 1
             else:
                 notes.append("a candidate failure (%s) reproduced only %d/3 times and was not reported" % (path, confirmed))
@@ -616,6 +698,8 @@ def stage_fuzz(pid, stage, tier, replay_path=None):
             if mo:
                 why = mo.group(1)[:1500]
             out.failure = (art, why, stage, log)
+            out.campaign = {"fuzz": True, "driver": stage["driver"], "seeded": (k % 2 == 0),
+                            "args": [a for a in jobs[k][0][2:] if not a.startswith("-artifact_prefix=")]}
         for a in slow:
             # load noise unless it reproduces three times in isolation
             art = os.path.join(adir, a)
